@@ -29,7 +29,8 @@ def gen_json(rng, depth=0):
     r = rng.random()
     if depth > 2 or r < 0.45:
         return rng.choice([None, True, False, 0, 1, -7, 2 ** 70 + 3, -2 ** 63, 0.5, -0.0, 1e300, 3.141592653589793,
-                           '', 'x', 'naïve – ünï©ode', '日本語', 'a"b\\c\n', 12345678901234567890])
+                           '', 'x', 'naïve – ünï©ode', '日本語', 'a"b\\c\n', 12345678901234567890,
+                           'caf\udce9.jpg', 'half\ud83d'])      # lone surrogates: what os.fsdecode() gives for a file name that is not UTF-8
     if r < 0.7:
         return [gen_json(rng, depth + 1) for _ in range(rng.randint(0, 3))]
     return gen_dict(rng, depth + 1, allow_empty=True)
